@@ -536,10 +536,11 @@ fn exec_op(
             th.unpark();
             Res::U
         }
-        K::Send { ch, v } => match o.tx[ch].send(v) {
-            Ok(()) => Res::Ok(0),
-            Err(_) => Res::Err(0),
-        },
+        K::Send { ch, v } => {
+            // Ok/Err is deliberately not recorded: disconnection semantics are out of scope
+            let _ = o.tx[ch].send(v);
+            Res::U
+        }
         K::Recv { ch } => {
             let rx = o.rx[ch].borrow_mut().take().expect("receiver gone");
             let r = rx.recv();
